@@ -71,6 +71,23 @@ where
     (out, rec)
 }
 
+/// the prover node with a Byzantine commitment (see `Lie`)
+pub fn prove_lying<B, H, R>(case: &Case<B>, lie: Lie) -> ProveOutcome
+where
+    B: SimField,
+    H: ElementHasher<BaseField = B> + Send + Sync,
+    R: RandomCoin<BaseField = B, Hasher = H> + Send + Sync,
+{
+    let mut p = SimProver::<B, H, R>::new(case.options.clone(), case.inputs.clone());
+    p.lie = Some(lie);
+    let trace = SimTrace::from_rows(&case.shape, &case.rows);
+    match guard(|| p.prove(trace)) {
+        Ok(Ok(proof)) => ProveOutcome::Ok(Box::new(proof)),
+        Ok(Err(e)) => ProveOutcome::Err(variant_name(&format!("{:?}", e))),
+        Err(pi) => ProveOutcome::Panic(pi),
+    }
+}
+
 #[derive(Debug, Clone)]
 pub enum VerifyOutcome {
     Accept,
